@@ -36,10 +36,10 @@ def gen_example(rnd, idx):
     return {"family": "examples", "id": "ex-" + name, "text": "\n".join(texts), "texts": texts, "planted": False, "example": name}
 
 
-GEN = {"sv": plangen.gen_sv, "rr": plangen.gen_rr, "tl": plangen.gen_tl, "rules": plangen.gen_rules, "examples": gen_example}
+GEN = {"cyc": plangen.gen_cyc, "sx": plangen.gen_sx, "sv": plangen.gen_sv, "rr": plangen.gen_rr, "tl": plangen.gen_tl, "rules": plangen.gen_rules, "examples": gen_example}
 # which families each property runs (the others' failures are counted, not reported)
-FAMILIES = {"C01": ["sv", "rr", "rules"], "C02": ["sv", "rr", "rules"], "C03": ["rules", "sv", "examples"], "C04": ["sv", "examples"], "C05": ["rr", "examples"],
-            "C06": ["tl", "sv", "rr", "examples"]}
+FAMILIES = {"C01": ["sv", "rr", "rules", "sx"], "C02": ["sv", "rr", "rules", "sx", "cyc"], "C03": ["rules", "sv", "cyc", "examples"], "C04": ["sv", "sx", "examples"], "C05": ["rr", "sx", "examples"],
+            "C06": ["tl", "sv", "rr", "sx", "examples"]}
 
 
 def fr(v):
@@ -281,7 +281,26 @@ def check_c03(case, plan, out):
         f = atom_flaw.get(a["id"])
         if f and f["phi_val"] == "T" and a["state"] == "Inactive":
             fails.append(("C03", "required-atom-unjustified", "an atom of %s is required by the plan (its flaw is active) but is neither active nor unified" % a["predicate"]))
-    # acyclicity of support (goal -> sub-goal, unified -> target)
+    # acyclicity of support over ALL in-plan flaws (goal -> disjunction -> sub-goal ..., unified -> target): flaw -> the flaws its active
+    # resolvers give rise to or rest on
+    edges = {}
+    for f in g["flaws"]:
+        if f["phi_val"] != "T":
+            continue
+        for rid in f["resolvers"]:
+            r = ress[rid]
+            if r["rho_val"] != "T":
+                continue
+            for c in g["flaws"]:
+                if rid in c["causes"] and c["phi_val"] == "T":
+                    edges.setdefault(f["id"], []).append(c["id"])
+            for c in r.get("preconditions") or []:
+                if c in flaws and flaws[c]["phi_val"] == "T":
+                    edges.setdefault(f["id"], []).append(c)
+            if r["data"].get("type") == "unify":
+                t = atom_flaw.get(int(r["data"]["target"]))
+                if t is not None:
+                    edges.setdefault(f["id"], []).append(t["id"])
     color = {}
 
     def dfs(u, stack):
@@ -299,7 +318,9 @@ def check_c03(case, plan, out):
         if color.get(u) is None:
             cyc = dfs(u, [])
             if cyc:
-                fails.append(("C03", "cyclic-causal-support", "the support relation has a cycle through atoms %s" % cyc[-4:]))
+                k = cyc.index(cyc[-1])
+                names = [flaws[x]["data"].get("predicate") or flaws[x]["data"].get("type") for x in cyc[k:]]
+                fails.append(("C03", "cyclic-causal-support", "the support relation of the reported plan has a cycle: " + " -> ".join(str(n) for n in names)))
                 break
     return fails, checked
 
@@ -355,6 +376,55 @@ def check_rules_c01(case, plan, out):
     return fails, n
 
 
+def sx_truth(spec, unify):
+    """z3 ground truth for the unplanted scheduling family.  unify=False: every atom is active (a model is certainly a solution);
+    unify=True: a goal may also be achieved by an active atom of the same predicate with equal arguments (an upper bound on what can be solved)"""
+    import z3
+    q = lambda f: z3.RealVal(str(f))
+    s = z3.Solver()
+    s.set("timeout", 10000)
+    origin, horizon = z3.Real("origin"), z3.Real("horizon")
+    s.add(origin >= 0, horizon >= origin, horizon <= q(spec["horizon"]))
+    A = spec["atoms"]
+    n = len(A)
+    st = [z3.Real("s%d" % i) for i in range(n)]
+    en = [z3.Real("e%d" % i) for i in range(n)]
+    tau = [z3.Int("t%d" % i) for i in range(n)]
+    act = [z3.Bool("act%d" % i) for i in range(n)]
+    for i, a in enumerate(A):
+        s.add(st[i] >= origin, en[i] <= horizon, en[i] - st[i] >= q(a["dur_ge"]), z3.Or([tau[i] == k for k in a["insts"]]))
+        if a["start_eq"] is not None:
+            s.add(st[i] == q(a["start_eq"]), en[i] == q(a["end_eq"]))
+        if a["dur_eq"] is not None:
+            s.add(en[i] - st[i] == q(a["dur_eq"]))
+        if a["lo"] is not None:
+            s.add(st[i] >= q(a["lo"]), en[i] <= q(a["hi"]))
+        if a["kind"] == "fact" or not unify:
+            s.add(act[i])
+        else:
+            alts = [act[i]]
+            for j, b in enumerate(A):
+                if j != i and b["pred"] == a["pred"] and b["type"] == a["type"] and b["arg"] == a["arg"]:
+                    alts.append(z3.And(z3.Not(act[i]), act[j], st[i] == st[j], en[i] == en[j], tau[i] == tau[j]))
+            s.add(z3.Or(alts))
+    for i, j in spec["prec"]:
+        s.add(en[i] <= st[j])
+    for i, a in enumerate(A):
+        for j, b in enumerate(A):
+            if j <= i or a["type"] != "sv" or b["type"] != "sv":
+                continue
+            s.add(z3.Or(z3.Not(act[i]), z3.Not(act[j]), tau[i] != tau[j], en[i] <= st[j], en[j] <= st[i]))
+    for i, a in enumerate(A):
+        if a["type"] != "rr":
+            continue
+        for k in a["insts"]:
+            cap = spec["insts"][k]["cap"]
+            load = z3.Sum([z3.If(z3.And(act[j], tau[j] == k, st[j] <= st[i], st[i] < en[j]), q(b["arg"]), q(0)) for j, b in enumerate(A) if b["type"] == "rr"])
+            s.add(z3.Implies(z3.And(act[i], tau[i] == k), load <= q(cap)))
+    r = s.check()
+    return "sat" if r == z3.sat else ("unsat" if r == z3.unsat else "unknown")
+
+
 def work(exes, family, start, n, owner):
     part = common.Partial()
     rnd = common.rng("PLAN", family, start)
@@ -362,7 +432,7 @@ def work(exes, family, start, n, owner):
     for i in range(n):
         case = GEN[family](rnd, start + i)
         variant = names[(start + i) % len(names)]
-        out = solverlib.run_probe(exes[variant], case.get("texts") or [case["text"]], timeout=30.0)
+        out = solverlib.run_probe(exes[variant], case.get("texts") or [case["text"]], timeout=10.0 if family == "sx" else 30.0)
         fp = common.fingerprint(case["text"])
         st = out.status
         if st == "timeout":
@@ -398,6 +468,11 @@ def work(exes, family, start, n, owner):
             f1, n1 = check_rules_c01(case, plan, out)
             part.count("C01: rule constraints / sub-goal arguments evaluated", n1)
             fails += f1
+            if "spec" in case and owner == "C01":
+                t = sx_truth(case["spec"], True)
+                part.count("sx: z3 ground truth (unification allowed) " + t)
+                if t == "unsat":
+                    fails.append(("C01", "sx/solution-of-an-unschedulable-problem", "solve() returned true but the problem has no schedule at all (z3, unification allowed)"))
             nontriv = {"C04": pairs > 0, "C05": inst > 0, "C06": n6 > 0, "C03": nf > 1, "C01": n1 > 0 or n6 > 0, "C02": True}.get(owner, True)
             if out.graph and any(r["data"].get("type") == "unify" and r["rho_val"] == "T" for r in out.graph["resolvers"]):
                 part.count("%s: solutions with an active unification" % family)
@@ -407,6 +482,14 @@ def work(exes, family, start, n, owner):
             msg = out.read_error or out.solve_error or ""
             if case.get("planted") and (st == "unsolvable" or "unsolvable" in msg or "inconsistent" in msg):
                 fails.append(("C02", "%s/planted-problem-declared-unsolvable" % family, "the problem was built around a feasible plan but is declared unsolvable (%s)" % (msg or st)))
+            elif "spec" in case and (st == "unsolvable" or "unsolvable" in msg or "inconsistent" in msg):
+                if owner == "C02":
+                    t = sx_truth(case["spec"], False)
+                    part.count("sx: z3 ground truth (all atoms active) for an 'unsolvable' verdict: " + t)
+                    if t == "sat":
+                        fails.append(("C02", "sx/schedulable-problem-declared-unsolvable", "the problem is declared unsolvable (%s) but z3 finds a schedule with every atom active" % (msg or st)))
+                    elif t == "unknown":
+                        part.inconc("z3 unknown")
             elif st in ("read-error", "solve-error"):
                 part.count("%s: rejected with another error: %s" % (family, msg[:50]))
             nontriv = owner == "C02"
@@ -425,7 +508,7 @@ def work(exes, family, start, n, owner):
 
 def run_families(res, exes, tier, owner):
     fams = FAMILIES.get(owner, [])
-    total = 400 if tier == "quick" else 4000
+    total = 800 if tier == "quick" else 6000
     per = 10 if tier == "quick" else 25
     for fam in fams:
         if fam == "examples":
